@@ -87,6 +87,8 @@ if __name__ == '__main__':
             mp = os.path.join(V, 'seeded', sid, 'meta.json')
             if not os.path.exists(mp) or (only and not any(sid.startswith(o) for o in only)): continue
             m = json.load(open(mp))
+            if m.get('obsolete'):
+                print('%-22s obsolete patch (skipped)' % sid, flush=True); continue
             if missed_only and (m.get('outside_statement') or all(
                     r.get('caught') for r in (m.get('quick_check_result') or {'x': {}}).values())):
                 continue
